@@ -63,7 +63,7 @@ class Table(span.Visitor, typing.Iterable):
             """
             parents = {i for a in itertools.chain(self._absolute.values(), self._prefixed.values()) for i in a}
             children = set(self._absolute).union(self._prefixed).difference(parents)
-            assert children, 'Not acyclic'
+            assert children or not parents, 'Not acyclic'
             return children
 
         def insert(self, instruction: uuid.UUID, argument: uuid.UUID, index: typing.Optional[int] = None) -> None:
